@@ -28,7 +28,7 @@ const COS_HOSTS: &[&str] = &[
     "foo.com,google.*", "/regex/", "/re/,a.com", "bücher.de", "ü.com,~é.*", "[$domain=a.com]x.com", ",a.com,", "~", ".*",
     "~.*", "A.COM",
 ];
-const COS_SEPS: &[&str] = &["##", "##", "##", "#@#", "#?#", "#@?#", "#$#", "#%#", "#@$#", "#@%#", "#x#", "# #", "#?@#"];
+const COS_SEPS: &[&str] = &["##", "##", "##", "##", "##", "##", "##", "#@#", "#@#", "#?#", "#?#", "#@?#", "#$#", "#%#", "#@$#", "#@%#", "#x#", "# #", "#?@#"];
 const SELECTORS: &[&str] = &[
     ".ad", "#ad", ".ad-banner", "div > .x", ".a:has-text(x)", "div[id^=\"ad\"]", "", ".é", "^script:has-text(x)", ".a, .b",
     "a[href*=\"x\"]:not(.y)", ".x:-abp-has(.y)", " .padded ", "+js", "+js(", ".漢字",
